@@ -143,17 +143,59 @@ func one(r *ev.Run, c *ev.Case, i int, mu *sync.Mutex, seenKeys map[string]int) 
 	if rng.Intn(6) == 0 {
 		ps.ReqUser = "root"
 	}
+	// the legacy request format ("req=alice@", "req=@laptop") lets a client declare an
+	// empty user or host name
+	switch rng.Intn(16) {
+	case 0:
+		ps.ReqUser = ""
+	case 1:
+		ps.ReqHost = ""
+	case 2:
+		ps.ReqUser, ps.ReqHost = "", ""
+	}
 	rec := reqRec{Conf: confJSON, LogName: logName, ReqUser: ps.ReqUser, ReqHost: ps.ReqHost, IP: ps.ClientIP, TransID: ps.TransID, CAAlgo: ps.CAAlgo, Validity: validity, IDs: ids}
 	// earlier requests on the same agent leave their private keys (and certificates) behind
-	for k := c.Rand.Intn(3); k > 0; k-- {
+	for k := c.Rand.Intn(4); k > 0; k-- {
 		warm := ps
 		warm.TransID = gen.Ident(rng, 10)
+		if rng.Intn(3) == 0 {
+			// an earlier request on the same handler that is refused for want of a
+			// configured CA key slot (after its key pair has been generated)
+			for _, a := range []int{5, 17, -1, 4, 3, 2, 1, 0} {
+				if _, ok := want[a]; !ok {
+					refused := warm
+					refused.CAAlgo = a
+					rs := &gsrig.Signer{Agent: ag}
+					if e, esc := gsrig.Run(gsrig.Param(refused), []gensign.Handler{rig.Handler}, rs); esc == "" && e != nil && len(rs.Calls) == 0 {
+						r.Count("earlier refused requests on the same handler and agent", 1)
+					}
+					break
+				}
+			}
+		}
 		if _, ok := want[warm.CAAlgo]; !ok {
-			break
+			continue
 		}
 		ws := &gsrig.Signer{Agent: ag, Scribble: rng.Intn(2) == 0}
+		ag.ResetLog()
 		if _, esc := gsrig.Run(gsrig.Param(warm), []gensign.Handler{rig.Handler}, ws); esc == "" && len(ws.Calls) == 1 {
 			if pk, _, _, _, pe := ssh.ParseAuthorizedKey([]byte(ws.Calls[0].Req.PublicKey)); pe == nil {
+				// the certified key was generated for this request: its private half was
+				// handed to the agent during this run, not during an earlier one
+				added := false
+				wadds, _ := ag.Rec.Snapshot()
+				for _, a := range wadds {
+					if a.Certificate != nil {
+						continue // delivery of the certificate re-adds the private key
+					}
+					if sg, e := ssh.NewSignerFromKey(a.PrivateKey); e == nil && string(sg.PublicKey().Marshal()) == string(pk.Marshal()) {
+						added = true
+					}
+				}
+				if !added {
+					r.Violation(c, "csr-field:public-key-not-generated-for-this-request", fmt.Sprintf("earlier request on the same handler: the certified key was not among the %d private keys added to the agent during the run", len(wadds)), rec)
+					return
+				}
 				mu.Lock()
 				if prev, dup := seenKeys[string(pk.Marshal())]; dup {
 					mu.Unlock()
